@@ -1,6 +1,8 @@
 //go:build !race
 
-package fx
+package sim
+
+const RaceEnabled = false
 
 func raceOff() {}
 func raceOn()  {}
